@@ -539,6 +539,29 @@ def check(ctx):
                 r4.bad(V(r4.id, fid, "record-inputs:%s" % ",".join(bad), "the saved record and the cache check do not receive the same values (%s)" % ", ".join(bad), cn.file, cn.line))
             else:
                 r4.ok("%s: record built by %s from the values the check receives" % (short_path(fid), short_path(used)))
+    # ... and inside the check: the function of the cache module that builds the record to compare with hands the constructor every input it
+    # received itself — commands, structs, events, configuration.  `Self::new(commands, structs, config)` in a function that was given the events
+    # hashes an empty event list, while the record saved after generation hashes the real one: a project that emits events never hits the cache
+    for k in sorted(P.fns):
+        if "::generation_cache::GenerationCache::" not in k or "{closure" in k or "{promoted" in k:
+            continue
+        g = P.fns[k]
+        if not any(strip_generics(c.path).endswith("GenerationCache::load") or short_path(c.best) == "GenerationCache::load" for c in g.calls):
+            continue
+        for cn in [c for c in g.calls if is_cache_new(c) and c.bb in g.reach_blocks]:
+            for what in ("commands", "structs", "events", "config"):
+                params = [i_ for i_ in range(1, g.arg_count + 1) if re.search(ARG_TYPES[what], g.locals[i_] if i_ < len(g.locals) else "")]
+                if not params:
+                    continue
+                a = arg_by_type(cn, ARG_TYPES[what])
+                o = g.origin(a) if a is not None else None
+                while o is not None and o[0] in ("proj", "ref") and isinstance(o[1], tuple):
+                    o = o[1]
+                if o is not None and o[0] == "arg" and o[1] in params:
+                    r4.ok("%s: the record to compare with is built from the %s it was given" % (short_path(k), what))
+                else:
+                    r4.bad(V(r4.id, k, "check-ignores-input:%s" % what, "%s was given the %s but builds the record it compares with without them (%s): the digest it computes "
+                             "never equals the one saved after a generation that used them" % (short_path(k), what, short_path(cn.best)), cn.file, cn.line))
     # the files whose presence the check demands before it answers "up to date" are files the tool writes, under the very names it writes them:
     # a name nobody writes (a typo, `dependency_graph.dot`) is never there, so no record is ever accepted and every unchanged re-run regenerates
     FILE_RX = re.compile(r"^[\w.-]+\.(ts|txt|dot|json|js|md)$")
